@@ -11,6 +11,7 @@ uint8_t g_dcw, g_scw, g_mcw;
 ssize_t g_dx, g_dy, g_sx, g_sy, g_mx, g_my, g_ex, g_ey;
 uint64_t g_dr, g_dg, g_db, g_da, g_sr, g_sg, g_sb, g_sa, g_mr, g_mg, g_mb, g_ma, g_er, g_eg, g_eb, g_ea;
 ssize_t g_cw, g_ch;
+bool g_mx0, g_mx1, g_mx2, g_mx3, g_mx4, g_my0, g_my1, g_my2, g_my3, g_my4;
 bool g_tup_ok;
 uint64_t g_t_al, g_t_cr, g_t_cg, g_t_cb, g_t_ca, g_t_dr, g_t_dg, g_t_db, g_t_da, g_t_mx, g_t_e1, g_t_e2, g_bo_r, g_bo_g, g_bo_b, g_bo_a, g_bo_e;
 uint32_t g_cb_d, g_cb_s, g_cb_out;
@@ -47,7 +48,8 @@ void h_model_write_pixel(void) { Image img; IN_D ssize_t in_x, in_y; uint64_t in
   Image_write_pixel(&img, in_x, in_y, in_r, in_g, in_b, in_a); VERIF_REACH(); }
 
 /* ---- clamp ---- */
-void h_clamp(void) { const Image *d, *s; ssize_t *x, *y, *w, *h, *sx, *sy; GH(ssize_t, dx) GH(ssize_t, dy) clamp_blit_dimensions(d, s, x, y, w, h, sx, sy); VERIF_REACH(); }
+void h_clamp(void) { const Image *d, *s; ssize_t in_x, in_y, in_w, in_h, in_sx, in_sy; GH(ssize_t, dx) GH(ssize_t, dy) GH(ssize_t, dw) GH(ssize_t, dh) GH(ssize_t, sw) GH(ssize_t, sh)
+  ssize_t x = in_x, y = in_y, w = in_w, h = in_h, sx = in_sx, sy = in_sy; clamp_blit_dimensions(d, s, &x, &y, &w, &h, &sx, &sy); VERIF_REACH(); }
 
 /* ---- fill / clear ---- */
 void h_fill_rect(void) { Image* self; IN_D IN_T IN_RECT; IN_RGBA; Image_fill_rect(self, in_x, in_y, in_w, in_h, in_r, in_g, in_b, in_a); VERIF_REACH(); }
@@ -80,3 +82,50 @@ void h_x_blenda_bl1(void) { IN_T uint64_t in_p[8]; Image img; uint64_t in_max; i
 #define HAA(name) void h_##name(void) { IN_T uint64_t in_p[8]; Image img; uint64_t in_max, in_sa, in_ea; img.max_value = in_max; \
   name(&img, in_sa, in_ea, in_p[0], in_p[1], in_p[2], in_p[3], in_p[4], in_p[5], in_p[6], in_p[7]); VERIF_REACH(); }
 HAA(x_blenda_bl2) HAA(x_blenda_bl3) HAA(x_blenda_bl4)
+
+/* ---- lemma wrappers: the blend rules with explicit arithmetic, derived from the function-point contracts (callee replaced by its contract) ---- */
+#define SET_TUP(al, cr, cg, cb, ca) g_tup_ok = 1; g_t_al = (al); g_t_cr = (cr); g_t_cg = (cg); g_t_cb = (cb); g_t_ca = (ca); \
+  g_t_dr = g_dr; g_t_dg = g_dg; g_t_db = g_db; g_t_da = g_da
+#define SET_BO8 g_bo_r = BL8(g_t_al, g_t_cr, g_t_dr); g_bo_g = BL8(g_t_al, g_t_cg, g_t_dg); g_bo_b = BL8(g_t_al, g_t_cb, g_t_db); g_bo_a = BL8(g_t_al, g_t_ca, g_t_da)
+#define SET_BOM g_bo_r = BLM(g_t_cr, g_t_al, g_t_dr, g_t_mx); g_bo_g = BLM(g_t_cg, g_t_al, g_t_dg, g_t_mx); g_bo_b = BLM(g_t_cb, g_t_al, g_t_db, g_t_mx); \
+  g_bo_a = BLM(g_t_ca, g_t_al, g_t_da, g_t_mx)
+void L_fill_rect_rule(Image* self, ssize_t x, ssize_t y, ssize_t w, ssize_t h, uint64_t r, uint64_t g, uint64_t b, uint64_t a)
+{ SET_TUP(a, r, g, b, a); SET_BO8; Image_fill_rect(self, x, y, w, h, r, g, b, a); }
+void L_blit_rule(BLIT_PARAMS)
+{ SET_TUP(g_sa, g_sr, g_sg, g_sb, g_sa); SET_BO8; Image_blit(self, source, x, y, w, h, sx, sy); }
+void L_blend_blit_rule(BLIT_PARAMS)
+{ SET_TUP(g_sa, g_sr, g_sg, g_sb, g_sa); g_t_mx = self->max_value; SET_BOM; Image_blend_blit(self, source, x, y, w, h, sx, sy); }
+void L_blend_blit_alpha_rule(BLIT_PARAMS, uint64_t source_alpha)
+{ g_t_mx = self->max_value; g_t_e1 = source_alpha; g_t_e2 = g_sa; g_bo_e = (g_t_e1 * g_t_e2) / g_t_mx;
+  SET_TUP(g_bo_e, g_sr, g_sg, g_sb, g_sa); SET_BOM; Image_blend_blit_alpha(self, source, x, y, w, h, sx, sy, source_alpha); }
+void l_fill_rect_rule(void) { Image* self; IN_D IN_RECT; IN_RGBA; L_fill_rect_rule(self, in_x, in_y, in_w, in_h, in_r, in_g, in_b, in_a); VERIF_REACH(); }
+#define HL(name, decl, ...) void l_##name(void) { Image* self; const Image* source; IN_D IN_S IN_BLIT; decl; \
+  L_##name(self, source, in_x, in_y, in_w, in_h, in_sx, in_sy __VA_ARGS__); VERIF_REACH(); }
+HL(blit_rule, int in_unused)
+HL(blend_blit_rule, int in_unused)
+HL(blend_blit_alpha_rule, uint64_t in_alpha, , in_alpha)
+
+/* ---- whole-image transforms ---- */
+void h_invert(void) { Image* self; IN_D Image_invert(self); VERIF_REACH(); }
+void h_set_alpha_from_mask_color(void) { Image* self; IN_D uint64_t in_r, in_g, in_b; Image_set_alpha_from_mask_color(self, in_r, in_g, in_b); VERIF_REACH(); }
+void h_set_alpha_from_mask_color_c(void) { Image* self; IN_D uint32_t in_c; Image_set_alpha_from_mask_color_c(self, in_c); VERIF_REACH(); }
+void L_invert_twice(Image* self) { Image_invert(self); Image_invert(self); }
+void l_invert_twice(void) { Image* self; IN_D L_invert_twice(self); VERIF_REACH(); }
+#ifdef C07_GHOST2
+#define IN_E GH(ssize_t, ex) GH(ssize_t, ey) GH(uint64_t, er) GH(uint64_t, eg) GH(uint64_t, eb) GH(uint64_t, ea)
+void h_reverse_horizontal(void) { Image* self; IN_D IN_E Image_reverse_horizontal(self); VERIF_REACH(); }
+void h_reverse_vertical(void) { Image* self; IN_D IN_E Image_reverse_vertical(self); VERIF_REACH(); }
+void L_reverse_horizontal_twice(Image* self) { Image_reverse_horizontal(self); Image_reverse_horizontal(self); }
+void L_reverse_vertical_twice(Image* self) { Image_reverse_vertical(self); Image_reverse_vertical(self); }
+void l_reverse_horizontal_twice(void) { Image* self; IN_D IN_E L_reverse_horizontal_twice(self); VERIF_REACH(); }
+void l_reverse_vertical_twice(void) { Image* self; IN_D IN_E L_reverse_vertical_twice(self); VERIF_REACH(); }
+#endif
+/* ---- lines, text ---- */
+void h_draw_horizontal_line(void) { Image* self; IN_D ssize_t in_x1, in_x2, in_y, in_dash; IN_RGBA; Image_draw_horizontal_line(self, in_x1, in_x2, in_y, in_dash, in_r, in_g, in_b, in_a); VERIF_REACH(); }
+void h_draw_vertical_line(void) { Image* self; IN_D ssize_t in_x, in_y1, in_y2, in_dash; IN_RGBA; Image_draw_vertical_line(self, in_x, in_y1, in_y2, in_dash, in_r, in_g, in_b, in_a); VERIF_REACH(); }
+void h_draw_horizontal_line_c(void) { Image* self; IN_D ssize_t in_x1, in_x2, in_y, in_dash; uint32_t in_c; Image_draw_horizontal_line_c(self, in_x1, in_x2, in_y, in_dash, in_c); VERIF_REACH(); }
+void h_draw_vertical_line_c(void) { Image* self; IN_D ssize_t in_x, in_y1, in_y2, in_dash; uint32_t in_c; Image_draw_vertical_line_c(self, in_x, in_y1, in_y2, in_dash, in_c); VERIF_REACH(); }
+void h_x_h_div1(void) { ssize_t in_x, in_dash; x_h_div1(in_x, in_dash); VERIF_REACH(); }
+void h_x_v_div1(void) { ssize_t in_x, in_dash; x_v_div1(in_x, in_dash); VERIF_REACH(); }
+void h_draw_text_v(void) { Image* self; IN_D GH(bool, tup_ok) ssize_t in_x, in_y; ssize_t wv, hv; int in_ptrs; IN_RGBA; uint64_t in_br, in_bg, in_bb, in_ba; const char* buf; size_t in_size;
+  Image_draw_text_v(self, in_x, in_y, (in_ptrs & 1) ? &wv : 0, (in_ptrs & 2) ? &hv : 0, in_r, in_g, in_b, in_a, in_br, in_bg, in_bb, in_ba, buf, in_size); VERIF_REACH(); }
